@@ -540,6 +540,12 @@ func callSSA(i *interpreter, caller *frame, callpos token.Pos, fn *ssa.Function,
 		}
 		defer fmt.Fprintf(os.Stderr, "Leaving %s%s.\n", fn, suffix)
 	}
+	if X.Summaries != nil {
+		if rep, ok := X.Summaries[fn]; ok {
+			X.stub("callee summary: " + fn.Name() + " -> " + rep.Name())
+			fn = rep
+		}
+	}
 	fr := &frame{
 		i:      i,
 		caller: caller, // for panic/recover
